@@ -250,7 +250,15 @@ func (h *httpServer) checkIPWhitelist(addr string) bool {
 	if ip.IsLoopback() {
 		return true
 	}
-	whitelist := h.cfg.GetModuleConfig().RPC.Whitelist
+	rpcCfg := h.cfg.GetModuleConfig().RPC
+	whitelist := rpcCfg.Whitelist
+	// the legacy key "whitlist" is honoured with the same precedence as rpc.InitIPWhitelist
+	if len(rpcCfg.Whitlist) == 1 && rpcCfg.Whitlist[0] == "*" {
+		return true
+	}
+	if len(whitelist) == 0 {
+		whitelist = rpcCfg.Whitlist
+	}
 	// "*" means allow all IPs, consistent with rpc.InitIPWhitelist
 	if len(whitelist) == 0 || (len(whitelist) == 1 && whitelist[0] == "*") {
 		return true
